@@ -8,7 +8,7 @@ mkdir -p /var/tmp/verif-mut
 git -C /repo worktree add --detach "$WT" HEAD -q || exit 2
 trap 'git -C /repo worktree remove --force "$WT" >/dev/null 2>&1' EXIT
 if ! git -C "$WT" apply "$P"; then echo "ERROR patch does not apply: $P"; exit 2; fi
-OUT=$(cd "$(dirname "$0")" && VERIF_REPO="$WT" VERIF_WORK=/var/tmp/verif-work ./run.sh "$ID" "$TIER" 2>&1); RC=$?
+OUT=$(cd "$(dirname "$0")" && VERIF_REPO="$WT" VERIF_EVIDENCE_DIR=/var/tmp/verif-mut/evidence VERIF_WORK=/var/tmp/verif-work ./run.sh "$ID" "$TIER" 2>&1); RC=$?
 N=$(printf '%s\n' "$OUT" | grep -c '^VIOLATION property='"$ID")
 case $RC in
  1) if [ "$N" -gt 0 ]; then echo "CAUGHT $ID $(basename $P) violations_lines=$N"; printf '%s\n' "$OUT" | grep -A2 '^VIOLATION' | head -4 | cut -c1-300; exit 0; fi; echo "ERROR rc=1 without VIOLATION line"; exit 2;;
